@@ -37,6 +37,10 @@ Representation of Python values (primitives in `lean/NmlVerif/Model/Groups.lean`
     strings, a parameter), `key=lambda x: x.segments` -> `sortBy (fun x => x) l` (ints in numeric order).
 
 Anything not listed in the rules below is a *gap*: reported (the check fails), never skipped.
+
+Before translation each method is NORMALISED (section "normalisation of equivalent surface shapes", rules N1-N10 and
+T1-T3): equivalent spellings of one statement are mapped to one canonical spelling, so that a behaviour-preserving
+refactoring of the source gives byte-for-byte the same generated file and every proof still applies.
 """
 import ast
 import os
@@ -52,12 +56,16 @@ SIGS = {
     "optimise_segment_group": {"params": [("seg_group_id", "gid")], "ret": "none"},
     "optimise_segment_groups": {"params": [], "ret": "none"},
 }
+# T2: annotations are not evaluated by the methods; the equivalent spellings of the same type are accepted
 ANNOT_OK = {
-    "arg": {"typing.Union[str, SegmentGroup]"},
+    "arg": {"typing.Union[str, SegmentGroup]", "Union[str, SegmentGroup]", "str | SegmentGroup",
+            "typing.Union[str, 'SegmentGroup']", "Union[str, 'SegmentGroup']", "'typing.Union[str, SegmentGroup]'",
+            "'Union[str, SegmentGroup]'", "'str | SegmentGroup'"},
     "bool": {"bool"},
     "gid": {"str"},
 }
-RET_ANNOT_OK = {"list:sid": {"typing.List[int]"}, "gref": {"SegmentGroup"}, "none": set()}
+RET_ANNOT_OK = {"list:sid": {"typing.List[int]", "List[int]", "list[int]", "'typing.List[int]'", "'List[int]'", "'list[int]'"},
+                "gref": {"SegmentGroup", "'SegmentGroup'"}, "none": {"None"}}
 LEAN_TY = {"arg": "Arg", "bool": "Bool", "gid": "Nat", "sid": "Nat"}
 LEAN_RET = {"list:sid": "List Nat", "gref": "Nat", "none": "Cell"}
 RAISES = {
@@ -121,9 +129,42 @@ class Fn:
         self.assumptions = set()
 
     # ------------------------------------------------------------ environment
-    def declare(self, name, ty, fresh=False, loopvar=False):
-        self.env[name] = {"ty": ty, "fresh": fresh, "escaped": False, "alive": True, "loopvar": loopvar}
+    def declare(self, name, ty, fresh=False, loopvar=False, surelist=False):
+        self.env[name] = {"ty": ty, "fresh": fresh, "escaped": False, "alive": True, "loopvar": loopvar,
+                          "surelist": surelist, "depth": len(self.scopes)}
         self.scopes[-1].append(name)
+
+    # T3: which names certainly hold a real Python `list` (exact type) at this point of the method
+    def sure_list(self, node):
+        """the value of `node` is certainly a `list` object: built here by `[...]`, a list comprehension, `list(...)`
+        or `natsort.natsorted(...)` (all return a new exact `list`), or a name that holds such a value"""
+        if isinstance(node, (ast.List, ast.ListComp)):
+            return True
+        if isinstance(node, ast.Call) and isinstance(node.func, ast.Name) and node.func.id == "list":
+            return True
+        if isinstance(node, ast.Call) and self.attr_chain(node.func) == ["natsort", "natsorted"]:
+            return True
+        if isinstance(node, ast.Name):
+            v = self.env.get(node.id)
+            return bool(v and v["alive"] and v["surelist"])
+        return False
+
+    def canon_truth(self, node):
+        """T3: in a condition, `l` for a name that certainly holds a list -> `len(l) > 0` (for an exact `list`,
+        `bool(l)` IS `len(l) != 0`; `len` cannot raise on it). Only names of known lists: for any other value (`None`,
+        an object with `__bool__`/`__len__`) the two differ, and those are left alone (the translator then refuses
+        the truth value of a list-typed expression)."""
+        if isinstance(node, ast.BoolOp):
+            node.values = [self.canon_truth(v) for v in node.values]
+            return node
+        if isinstance(node, ast.UnaryOp) and isinstance(node.op, ast.Not):
+            node.operand = self.canon_truth(node.operand)
+            return node
+        if isinstance(node, ast.Name) and self.sure_list(node) and is_list(self.env[node.id]["ty"]):
+            call = ast.copy_location(ast.Call(ast.copy_location(ast.Name("len", ast.Load()), node),
+                                              [ast.copy_location(ast.Name(node.id, ast.Load()), node)], []), node)
+            return ast.copy_location(ast.Compare(call, [ast.Gt()], [ast.copy_location(ast.Constant(0), node)]), node)
+        return node
 
     def push(self):
         self.scopes.append([])
@@ -437,6 +478,7 @@ class Fn:
                 if ty in ("newself", "grouplist", "cell"):
                     raise Gap("%s: assignment of a %s" % (where(st), ty))
                 fresh = isinstance(st.value, ast.ListComp) or ty in ("list:?", "set:?")
+                sure = is_list(ty) and self.sure_list(st.value)
                 if not fresh:
                     self.escape(st.value)
                 name = tg.id
@@ -454,9 +496,12 @@ class Fn:
                     if name in self.iterating:
                         raise Gap("%s: %s is rebound while it is iterated" % (where(st), name))
                     old["fresh"], old["escaped"] = fresh, False
+                    # same block as the first binding: straight-line code, the new value is the value from here on;
+                    # in a nested block: after the block either value may be there
+                    old["surelist"] = sure if len(self.scopes) == old["depth"] else (old["surelist"] and sure)
                     self.emit(ind, "%s := %s" % (lname(name), t))
                 else:
-                    self.declare(name, ty, fresh=fresh)
+                    self.declare(name, ty, fresh=fresh, surelist=sure)
                     ann = " : List Nat" if (is_list(ty) or is_set(ty)) else ""
                     self.emit(ind, "let mut %s%s := %s" % (lname(name), ann, t))
                 return False
@@ -474,6 +519,7 @@ class Fn:
                 return False
             raise Gap("%s: assignment target %s" % (where(st), ast.unparse(tg)))
         if isinstance(st, ast.If):
+            st.test = self.canon_truth(st.test)
             self.comment(ind, st, head_only=True)
             c = self.cond(st.test, effects=False)
             self.emit(ind, "if %s then" % c)
@@ -503,6 +549,9 @@ class Fn:
             else:
                 raise Gap("%s: iteration over a %s" % (where(st), ity))
             self.prescan_escapes(st.body)
+            for n in ast.walk(st):             # T3: a name rebound in the loop body may hold either value on entry
+                if isinstance(n, ast.Name) and isinstance(n.ctx, ast.Store) and n.id in self.env:
+                    self.env[n.id]["surelist"] = False
             self.emit(ind, "for %s in %s do" % (lname(st.target.id), it))
             self.push()
             self.declare(st.target.id, vty, loopvar=True)
@@ -530,21 +579,56 @@ class Fn:
             self.emit(ind, "return %s" % t)
             return True
         if isinstance(st, ast.Raise):
-            self.comment(ind, st)
             e = st.exc
-            if st.cause is not None or not (isinstance(e, ast.Call) and isinstance(e.func, ast.Name) and len(e.args) == 1):
+            if st.cause is not None or not (isinstance(e, ast.Call) and isinstance(e.func, ast.Name) and len(e.args) == 1
+                                            and not e.keywords):
                 raise Gap("%s: raise %s" % (where(st), ast.unparse(st)))
+            # T1: the message may be spelled as a `+` chain, an f-string or a `%`-format whose specs are all `%s`.
+            # Only (exception class, leading constant text) is modelled; the operands must be values whose formatting
+            # cannot itself raise (group ids, `self.id`, `str(...)`), so that the statement certainly raises `e.func`.
             parts, m = [], e.args[0]
-            while isinstance(m, ast.BinOp) and isinstance(m.op, ast.Add):
-                parts.append(m.right)
-                m = m.left
-            parts.append(m)
-            parts.reverse()
+            if isinstance(m, ast.JoinedStr):
+                for v in m.values:
+                    if isinstance(v, ast.Constant) and isinstance(v.value, str):
+                        parts.append(v)
+                    elif isinstance(v, ast.FormattedValue) and v.format_spec is None and v.conversion in (-1, 115):
+                        parts.append(ast.copy_location(ast.Call(ast.Name("str", ast.Load()), [v.value], []), v))
+                    else:
+                        raise Gap("%s: f-string part %s" % (where(st), ast.unparse(v)))
+                if not parts or not isinstance(parts[0], ast.Constant):
+                    parts.insert(0, ast.Constant(""))
+            elif isinstance(m, ast.BinOp) and isinstance(m.op, ast.Mod) and isinstance(m.left, ast.Constant) \
+                    and isinstance(m.left.value, str):
+                fmt = m.left.value
+                ops = list(m.right.elts) if isinstance(m.right, ast.Tuple) else [m.right]
+                pieces = fmt.split("%s")
+                if "%" in "".join(pieces) or len(pieces) - 1 != len(ops) or any(isinstance(o, ast.Starred) for o in ops):
+                    raise Gap("%s: %%-format %r with %d operands" % (where(st), fmt, len(ops)))
+                parts.append(ast.Constant(pieces[0]))
+                for o, piece in zip(ops, pieces[1:]):
+                    if isinstance(o, (ast.Tuple, ast.Dict)):
+                        raise Gap("%s: %%-format operand %s" % (where(st), ast.unparse(o)))
+                    parts.append(ast.copy_location(ast.Call(ast.Name("str", ast.Load()), [o], []), st))
+                    parts.append(ast.Constant(piece))
+            else:
+                while isinstance(m, ast.BinOp) and isinstance(m.op, ast.Add):
+                    parts.append(m.right)
+                    m = m.left
+                parts.append(m)
+                parts.reverse()
+            lead0 = parts[0].value if isinstance(parts[0], ast.Constant) and isinstance(parts[0].value, str) else None
+            # the comment shows what the translation depends on (class and leading text), whatever the spelling
+            self.emit(ind, "-- raise %s(%r + ...)" % (e.func.id, lead0))
             for p in parts[1:]:        # the operands are evaluated: they must be strings, or the raise raises TypeError
                 if isinstance(p, ast.Constant) and isinstance(p.value, str):
                     continue
-                if isinstance(p, ast.Call) and isinstance(p.func, ast.Name) and p.func.id == "str" and len(p.args) == 1:
-                    continue
+                if isinstance(p, ast.Call) and isinstance(p.func, ast.Name) and p.func.id == "str" and len(p.args) == 1 \
+                        and not p.keywords:
+                    q = p.args[0]      # str(x): x must be a value the translator knows (str() of it cannot raise)
+                    if self.attr_chain(q) == ["self", "id"] or \
+                            (isinstance(q, ast.Name) and self.var(q.id, st)["ty"] in ("arg", "gid")):
+                        continue
+                    raise Gap("%s: operand %s of the exception message" % (where(st), ast.unparse(p)))
                 if self.attr_chain(p) == ["self", "id"]:
                     self.assumptions.add("Cell.id is a str (it is concatenated into the exception message)")
                     continue
@@ -609,6 +693,418 @@ class Fn:
                      "  | 0 => fun _ _ _ => .error Err.outOfFuel\n"
                      "  | fuel+1 => %s_body (%s fuel)\n" % (CLASS, self.name, self.name, self.name, self.name))
         return text
+
+
+# ------------------------------------------------------------------ normalisation of equivalent surface shapes
+#
+# Runs on a deep copy of each method's AST BEFORE translation and maps equivalent spellings of the same statement to
+# ONE canonical spelling, so that a behaviour-preserving refactoring of the source gives byte-for-byte the same
+# `Gen/Groups.lean` (comments included: they are unparsed from the canonical AST) and no proof has to change.
+# Every rule is an equivalence for ALL inputs (the reason is given at the rule); what no rule recognises is left as it
+# is and the translator decides (it refuses what it does not know).  Nothing is ever dropped or guessed.
+#
+#   N1  `not (a in b)` -> `a not in b`,  `not (a not in b)` -> `a in b`   (language definition of `not in`)
+#   N2  `a != b` -> `not a == b`   (str/int: `!=` is the negation of `==`; the translator accepts `==` only between
+#       two ids of the same kind or a group id and the `segment_group` argument, and for the latter
+#       `GeneratedsSuper.__ne__` is checked to be `not self.__eq__(other)`, see `env_checks(uses_ne=True)`)
+#   N3  `list()` -> `[]`;  `x.extend([e])` / `x += [e]` -> `x.append(e)`   (`list.__iadd__` and `extend` append in
+#       place; on anything that is not a list the translator refuses the `append`; the builtins are checked not to be
+#       rebound, module level by `env_checks`, locally by N8)
+#   N4  `if c: A(always returns/raises) else: B` -> `if c: A` followed by `B`; `elif` is the same thing
+#   N5  in a `for` body: `if c: continue` followed by REST -> `if not c: REST`   (REST is the rest of the loop body)
+#   N6  `X = []` followed by `for v in L: if C: X.append(v)` (X occurs neither in L nor in C) -> `X = [v for v in L if C]`
+#       (same elements in the same order; C has no effect: the translator refuses effects inside conditions; the only
+#       difference, `v` staying bound after the loop, is unobservable because the translator refuses any use of a
+#       loop variable after its loop)
+#   N7  a local that is bound exactly once, to `<loop variable>.segments` / `.segment_groups` / `.id`, and only used
+#       later in the same block, is replaced by that expression   (a plain attribute read: no effect, cannot raise on
+#       the values the translator types it for, `env_checks` refuses properties/`__getattr__`; the loop variable is
+#       bound once and the translator refuses every store to these attributes, so each read gives the same object)
+#   N9  `for v in self.<translated method>(...):` -> `t = self.<method>(...)` followed by `for v in t:`   (the iterable
+#       of a `for` is evaluated once, before the loop; `t` is a new name, checked not to occur in the method)
+#   N10 a `return` / `return None` in tail position of the method (after it, falling off the end follows anyway)
+#       is removed   (both return `None`)
+#   N8  alpha renaming.  First every binder (local, loop/comprehension variable, lambda parameter; scoping as the
+#       translator has it: a name first bound in a block is dead after it, a loop variable must not shadow a live
+#       local) gets a unique name, so that N7 can count binding sites per binder; at the end binder k gets the name
+#       today's source uses for its k-th binder (`CANON_NAMES`) when the number of binders is the same and the
+#       renamed method resolves every name to the same binder as before (checked: no capture); otherwise the
+#       method's own names are restored (same check).  Lean is indifferent to bound names, so this only keeps the
+#       generated text identical.
+#   (docstrings, comments, blank lines, parenthesisation and string quotes do not reach the AST; the equivalent
+#    spellings of the exception message, of the parameter annotations and of `if l:` for `if len(l) > 0:` need the
+#    translator's types and are handled inside `Fn`: rules T1-T3 there.)
+
+CANON_NAMES = {
+    "get_all_segments_in_group": ["sg", "seg", "all_segs", "member", "include", "segs_here", "s"],
+    "get_segment_group": ["sg"],
+    "optimise_segment_group": ["seg_group", "members", "new_members", "seen_segments", "i", "includes", "new_includes",
+                               "seen_groups", "i", "x", "included_segment_ids", "inc", "i", "x"],
+    "optimise_segment_groups": ["seg_group"],
+}
+GLOBAL_NAMES = {"self", "isinstance", "str", "set", "list", "len", "natsort", "Exception", "ValueError"}
+PURE_ATTRS = ("segments", "segment_groups", "id")
+
+
+def _names(node):
+    return {n.id for n in ast.walk(node) if isinstance(n, ast.Name)}
+
+
+def _always_ends(stmts):
+    if not stmts:
+        return False
+    last = stmts[-1]
+    if isinstance(last, (ast.Return, ast.Raise)):
+        return True
+    if isinstance(last, ast.If):
+        return _always_ends(last.body) and _always_ends(last.orelse)
+    return False
+
+
+class _ExprNorm(ast.NodeTransformer):
+    """N1, N2, N3 (expression part)"""
+
+    def __init__(self):
+        self.uses_ne = False
+
+    def visit_UnaryOp(self, node):
+        self.generic_visit(node)
+        if isinstance(node.op, ast.Not) and isinstance(node.operand, ast.Compare) and len(node.operand.ops) == 1:
+            c = node.operand
+            if isinstance(c.ops[0], ast.In):
+                return ast.copy_location(ast.Compare(c.left, [ast.NotIn()], c.comparators), node)
+            if isinstance(c.ops[0], ast.NotIn):
+                return ast.copy_location(ast.Compare(c.left, [ast.In()], c.comparators), node)
+        if isinstance(node.op, ast.Not) and isinstance(node.operand, ast.UnaryOp) and isinstance(node.operand.op, ast.Not) \
+                and isinstance(node.operand.operand, ast.Compare):
+            return node.operand.operand                      # not not (comparison): a comparison already is a bool
+        return node
+
+    def visit_Compare(self, node):
+        self.generic_visit(node)
+        if len(node.ops) == 1 and isinstance(node.ops[0], ast.NotEq):
+            self.uses_ne = True
+            eq = ast.copy_location(ast.Compare(node.left, [ast.Eq()], node.comparators), node)
+            return ast.copy_location(ast.UnaryOp(ast.Not(), eq), node)
+        return node
+
+    def visit_Call(self, node):
+        self.generic_visit(node)
+        if isinstance(node.func, ast.Name) and node.func.id == "list" and not node.args and not node.keywords:
+            return ast.copy_location(ast.List([], ast.Load()), node)
+        if isinstance(node.func, ast.Attribute) and node.func.attr == "extend" and len(node.args) == 1 \
+                and not node.keywords and isinstance(node.args[0], ast.List) and len(node.args[0].elts) == 1 \
+                and not isinstance(node.args[0].elts[0], ast.Starred):
+            f = ast.copy_location(ast.Attribute(node.func.value, "append", ast.Load()), node.func)
+            return ast.copy_location(ast.Call(f, [node.args[0].elts[0]], []), node)
+        return node
+
+
+def _norm_block(stmts, in_loop):
+    """N3 (statement part), N4, N5, N6 on one statement list; `in_loop`: the list is the whole body of a `for`"""
+    out = []
+    k = 0
+    stmts = list(stmts)
+    while k < len(stmts):
+        st = stmts[k]
+        rest = stmts[k + 1:]
+        # N3: x += [e]  ->  x.append(e)
+        if isinstance(st, ast.AugAssign) and isinstance(st.op, ast.Add) and isinstance(st.target, ast.Name) \
+                and isinstance(st.value, ast.List) and len(st.value.elts) == 1 \
+                and not isinstance(st.value.elts[0], ast.Starred):
+            f = ast.copy_location(ast.Attribute(ast.copy_location(ast.Name(st.target.id, ast.Load()), st), "append", ast.Load()), st)
+            st = ast.copy_location(ast.Expr(ast.copy_location(ast.Call(f, [st.value.elts[0]], []), st)), st)
+        if isinstance(st, ast.If):
+            # N5: guard clause with `continue` (only where REST is the rest of the loop body)
+            if in_loop and len(st.body) == 1 and isinstance(st.body[0], ast.Continue) and not st.orelse and rest:
+                neg = _ExprNorm().visit(ast.copy_location(ast.UnaryOp(ast.Not(), st.test), st.test))
+                new = ast.copy_location(ast.If(neg, _norm_block(rest, True), []), st)
+                out.append(new)
+                return out
+            st.body = _norm_block(st.body, False)
+            st.orelse = _norm_block(st.orelse, False)
+            # N4: no `else` after a branch that always returns/raises
+            if st.orelse and _always_ends(st.body):
+                tail = st.orelse
+                st.orelse = []
+                out.append(st)
+                stmts = stmts[:k + 1] + tail + rest
+                k += 1
+                continue
+        elif isinstance(st, ast.For):
+            st.body = _norm_block(st.body, True)
+            # N9: for v in self.<method>(...):  ->  t = self.<method>(...) ; for v in t:
+            if isinstance(st.iter, ast.Call) and isinstance(st.iter.func, ast.Attribute) \
+                    and isinstance(st.iter.func.value, ast.Name) and st.iter.func.value.id == "self" \
+                    and st.iter.func.attr in TARGETS:
+                _norm_block.fresh = getattr(_norm_block, "fresh", 0) + 1
+                t = "iterated_%d_" % _norm_block.fresh
+                out.append(ast.copy_location(ast.Assign([ast.copy_location(ast.Name(t, ast.Store()), st)], st.iter), st))
+                st.iter = ast.copy_location(ast.Name(t, ast.Load()), st)
+            # N6: X = [] ; for v in L: if C: X.append(v)   ->   X = [v for v in L if C]
+            prev = out[-1] if out else None
+            if prev is not None and isinstance(prev, ast.Assign) and len(prev.targets) == 1 \
+                    and isinstance(prev.targets[0], ast.Name) and isinstance(prev.value, ast.List) and not prev.value.elts \
+                    and isinstance(st.target, ast.Name) and not st.orelse and len(st.body) == 1 \
+                    and isinstance(st.body[0], ast.If) and not st.body[0].orelse and len(st.body[0].body) == 1:
+                x, v, inner = prev.targets[0].id, st.target.id, st.body[0].body[0]
+                if isinstance(inner, ast.Expr) and isinstance(inner.value, ast.Call) and not inner.value.keywords \
+                        and isinstance(inner.value.func, ast.Attribute) and inner.value.func.attr == "append" \
+                        and isinstance(inner.value.func.value, ast.Name) and inner.value.func.value.id == x \
+                        and len(inner.value.args) == 1 and isinstance(inner.value.args[0], ast.Name) \
+                        and inner.value.args[0].id == v and x != v \
+                        and x not in _names(st.iter) and x not in _names(st.body[0].test):
+                    comp = ast.copy_location(ast.ListComp(
+                        ast.copy_location(ast.Name(v, ast.Load()), st),
+                        [ast.comprehension(ast.copy_location(ast.Name(v, ast.Store()), st), st.iter, [st.body[0].test], 0)]), st)
+                    prev.value = comp
+                    k += 1
+                    continue
+        out.append(st)
+        k += 1
+    return out
+
+
+def _inline_projections(fn):
+    """N7"""
+    changed = True
+    while changed:
+        changed = False
+        bound = {}                                   # name -> number of binding sites
+        for n in ast.walk(fn):
+            if isinstance(n, ast.Name) and isinstance(n.ctx, (ast.Store, ast.Del)):
+                bound[n.id] = bound.get(n.id, 0) + 1
+            elif isinstance(n, ast.arg):
+                bound[n.arg] = bound.get(n.arg, 0) + 1
+        loopvars = {n.target.id for n in ast.walk(fn) if isinstance(n, ast.For) and isinstance(n.target, ast.Name)}
+        for loop in [n for n in ast.walk(fn) if isinstance(n, ast.For)]:
+            blocks = [loop.body] + [b for n in ast.walk(loop) if isinstance(n, ast.If) for b in (n.body, n.orelse)]
+            for blk in blocks:
+                for k, st in enumerate(blk):
+                    if not (isinstance(st, ast.Assign) and len(st.targets) == 1 and isinstance(st.targets[0], ast.Name)
+                            and isinstance(st.value, ast.Attribute) and st.value.attr in PURE_ATTRS
+                            and isinstance(st.value.value, ast.Name)):
+                        continue
+                    v, b = st.targets[0].id, st.value.value.id
+                    if bound.get(v) != 1 or bound.get(b) != 1 or b not in loopvars or v == b:
+                        continue
+                    if not (isinstance(loop.target, ast.Name) and loop.target.id == b):
+                        continue                     # the binding must be inside the loop that binds `b`
+                    uses_all = [n for n in ast.walk(fn) if isinstance(n, ast.Name) and n.id == v and n is not st.targets[0]]
+                    later = [n for s2 in blk[k + 1:] for n in ast.walk(s2) if isinstance(n, ast.Name) and n.id == v]
+                    if len(uses_all) != len(later) or not later:
+                        continue
+
+                    class Sub(ast.NodeTransformer):
+                        def visit_Name(self, node):
+                            if node.id == v and isinstance(node.ctx, ast.Load):
+                                return ast.copy_location(ast.Attribute(
+                                    ast.copy_location(ast.Name(b, ast.Load()), node), st.value.attr, ast.Load()), node)
+                            return node
+                    new = [Sub().visit(s2) for s2 in blk[k + 1:]]
+                    blk[k:] = new
+                    changed = True
+                    break
+                if changed:
+                    break
+            if changed:
+                break
+
+
+class _Resolver:
+    """resolve every name of a method to its binder, with the translator's block scoping; see N8"""
+
+    def __init__(self, fn, params):
+        self.binders = []                  # original names, in order of binding
+        self.sites = []                    # (node, field, binder index): every occurrence that carries a binder's name
+        self.free = set()
+        self.scopes = [{}]
+        self.params = set(params)
+        self.problem = None
+        self.block(fn.body, push=False)
+
+    def lookup(self, name):
+        for sc in reversed(self.scopes):
+            if name in sc:
+                return sc[name]
+        return None
+
+    def bind(self, name, node, field, always_new):
+        if name in self.params or name in GLOBAL_NAMES:
+            if always_new or name in GLOBAL_NAMES:
+                self.problem = "line %s: %s is rebound" % (getattr(node, "lineno", "?"), name)
+            return
+        b = None if always_new else self.lookup(name)
+        if always_new == "loop" and self.lookup(name) is not None:
+            self.problem = "line %s: loop variable %s is already a live local" % (getattr(node, "lineno", "?"), name)
+        if b is None:
+            b = len(self.binders)
+            self.binders.append(name)
+            self.scopes[-1][name] = b
+        self.sites.append((node, field, b))
+
+    def block(self, stmts, push=True):
+        if push:
+            self.scopes.append({})
+        for st in stmts:
+            self.stmt(st)
+        if push:
+            self.scopes.pop()
+
+    def stmt(self, st):
+        if isinstance(st, ast.Assign):
+            self.expr(st.value)
+            for t in st.targets:
+                self.target(t)
+        elif isinstance(st, ast.AugAssign):
+            self.expr(st.value)
+            self.target(st.target)
+        elif isinstance(st, ast.For):
+            self.expr(st.iter)
+            self.scopes.append({})
+            if isinstance(st.target, ast.Name):
+                self.bind(st.target.id, st.target, "id", "loop")
+            else:
+                self.problem = "line %s: loop target" % getattr(st, "lineno", "?")
+            for s2 in st.body:
+                self.stmt(s2)
+            self.scopes.pop()
+            self.block(st.orelse)
+        elif isinstance(st, ast.If):
+            self.expr(st.test)
+            self.block(st.body)
+            self.block(st.orelse)
+        elif isinstance(st, (ast.Return, ast.Expr)):
+            if st.value is not None:
+                self.expr(st.value)
+        elif isinstance(st, ast.Raise):
+            for e in (st.exc, st.cause):
+                if e is not None:
+                    self.expr(e)
+        elif isinstance(st, (ast.Pass, ast.Continue, ast.Break)):
+            pass
+        else:
+            self.problem = "line %s: statement %s" % (getattr(st, "lineno", "?"), type(st).__name__)
+
+    def target(self, t):
+        if isinstance(t, ast.Name):
+            self.bind(t.id, t, "id", False)
+        elif isinstance(t, (ast.Attribute, ast.Subscript)):
+            for ch in ast.iter_child_nodes(t):
+                if not isinstance(ch, ast.expr_context):
+                    self.expr(ch)
+        else:
+            self.problem = "line %s: assignment target" % getattr(t, "lineno", "?")
+
+    def expr(self, e):
+        if isinstance(e, ast.Name):
+            b = self.lookup(e.id)
+            if b is not None:
+                self.sites.append((e, "id", b))
+            elif e.id not in self.params:
+                self.free.add(e.id)
+        elif isinstance(e, ast.Lambda):
+            a = e.args
+            if a.vararg or a.kwarg or a.kwonlyargs or a.posonlyargs or a.defaults:
+                self.problem = "line %s: lambda signature" % getattr(e, "lineno", "?")
+            self.scopes.append({})
+            for x in a.args:
+                self.bind(x.arg, x, "arg", True)
+            self.expr(e.body)
+            self.scopes.pop()
+        elif isinstance(e, (ast.ListComp, ast.SetComp, ast.GeneratorExp, ast.DictComp)):
+            depth = 0
+            for g in e.generators:
+                self.expr(g.iter)
+                self.scopes.append({})
+                depth += 1
+                if isinstance(g.target, ast.Name):
+                    self.bind(g.target.id, g.target, "id", True)
+                else:
+                    self.problem = "line %s: comprehension target" % getattr(e, "lineno", "?")
+                for c in g.ifs:
+                    self.expr(c)
+            for part in ((e.key, e.value) if isinstance(e, ast.DictComp) else (e.elt,)):
+                self.expr(part)
+            for _ in range(depth):
+                self.scopes.pop()
+        elif isinstance(e, ast.NamedExpr):
+            self.problem = "line %s: assignment expression" % getattr(e, "lineno", "?")
+        else:
+            for ch in ast.iter_child_nodes(e):
+                if isinstance(ch, (ast.expr, ast.keyword, ast.comprehension)) or isinstance(ch, ast.AST) and not isinstance(
+                        ch, (ast.expr_context, ast.operator, ast.unaryop, ast.boolop, ast.cmpop)):
+                    if isinstance(ch, ast.keyword):
+                        self.expr(ch.value)
+                    elif isinstance(ch, ast.expr):
+                        self.expr(ch)
+                    else:
+                        self.problem = "line %s: expression part %s" % (getattr(e, "lineno", "?"), type(ch).__name__)
+
+
+def _rename(fn, params, names):
+    """give binder k the name names[k] everywhere; undone (returns False) unless every name still resolves to the
+    same binder as before, i.e. nothing is captured"""
+    r = _Resolver(fn, params)
+    if r.problem or len(names) != len(r.binders):
+        return False
+    if set(names) & (r.free | set(params) | GLOBAL_NAMES):
+        return False
+    before = [(id(n), b) for n, _, b in r.sites]
+    old = [(n, f, getattr(n, f)) for n, f, _ in r.sites]
+    for n, f, b in r.sites:
+        setattr(n, f, names[b])
+    r2 = _Resolver(fn, params)
+    if r2.problem or r2.binders != list(names) or [(id(n), b) for n, _, b in r2.sites] != before or r2.free != r.free:
+        for n, f, v in old:
+            setattr(n, f, v)
+        return False
+    return True
+
+
+def _strip_tail_returns(stmts):
+    """N10: `return` / `return None` where falling off the end of the method follows anyway"""
+    while stmts and isinstance(stmts[-1], ast.Return) and (
+            stmts[-1].value is None or (isinstance(stmts[-1].value, ast.Constant) and stmts[-1].value.value is None)):
+        stmts.pop()
+    if stmts and isinstance(stmts[-1], ast.If):
+        _strip_tail_returns(stmts[-1].body)
+        _strip_tail_returns(stmts[-1].orelse)
+        if not stmts[-1].body:
+            stmts[-1].body.append(ast.copy_location(ast.Pass(), stmts[-1]))
+
+
+def normalise(name, fn, params):
+    """-> (normalised deep copy of the method, uses `!=`, note)"""
+    import copy
+    fn = copy.deepcopy(fn)
+    en = _ExprNorm()
+    fn = en.visit(fn)
+    _norm_block.fresh = 0
+    used = _names(fn) | {a.arg for a in ast.walk(fn) if isinstance(a, ast.arg)}
+    if any(n.startswith("iterated_") or "__b" in n for n in used):
+        raise Gap("a name with `iterated_` / `__b` is used (reserved for the normaliser)")
+    fn.body = _norm_block(fn.body, False)
+    _strip_tail_returns(fn.body)
+    # N8, first half: one name per binder, so that the rules below can count binding sites per binder
+    r = _Resolver(fn, params)
+    if r.problem:
+        raise Gap(r.problem)
+    unique = ["%s__b%d" % (b, k) for k, b in enumerate(r.binders)]
+    if not _rename(fn, params, unique):
+        raise Gap("binders could not be given unique names")
+    _inline_projections(fn)
+    # N8, second half: today's names; failing that the method's own names; failing that the unique ones
+    left = _Resolver(fn, params).binders
+    canon = CANON_NAMES.get(name, [])
+    note = None
+    if not _rename(fn, params, canon):
+        own = [u.rsplit("__b", 1)[0] for u in left]
+        note = "%d binders, today's source has %d (or a capture): the method's own names are kept" % (len(left), len(canon))
+        if not _rename(fn, params, own):
+            note += " (made unique)"
+    ast.fix_missing_locations(fn)
+    return fn, en.uses_ne, note
 
 
 # ------------------------------------------------------------------ whole-program facts
@@ -719,7 +1215,7 @@ def find_in_helpers(tree):
     return out, problems
 
 
-def env_checks(tree):
+def env_checks(tree, uses_ne=False):
     """facts about the rest of nml.py that the translation rules rely on"""
     gaps = []
     has_natsort = False
@@ -753,6 +1249,16 @@ def env_checks(tree):
                         ok = True
                     elif isinstance(st, (ast.Return, ast.For, ast.While)):
                         break
+    if uses_ne:      # rule N2: `a != b` was read as `not a == b`
+        ne_ok = False
+        if sup is not None:
+            for it in sup.body:
+                if isinstance(it, ast.FunctionDef) and it.name == "__ne__" and len(it.body) == 1 \
+                        and ast.unparse(it.body[0]) == "return not self.__eq__(other)":
+                    ne_ok = True
+        if not ne_ok:
+            gaps.append("nml.py: GeneratedsSuper.__ne__ is not `return not self.__eq__(other)` (a `!=` in a translated "
+                        "method cannot be read as `not ==`)")
     if not ok:
         gaps.append("nml.py: GeneratedsSuper.__eq__ does not start with `if type(self) != type(other): return False` "
                     "(the rule for `sg.id == segment_group` no longer applies)")
@@ -796,7 +1302,18 @@ def translate_funcs(label, funcs):
             gaps.append("%s: %d definitions of %s.%s (expected 1)" % (label, len(funcs.get(n, [])), CLASS, n))
     if gaps:
         return texts, gaps, assumptions
-    single = {n: funcs[n][0] for n in TARGETS}
+    single, uses_ne = {}, False
+    for n in TARGETS:
+        try:
+            single[n], ne, note = normalise(n, funcs[n][0], [pn for pn, _ in SIGS[n]["params"]])
+            uses_ne = uses_ne or ne
+            if note:
+                assumptions.add("note: %s.%s: %s" % (CLASS, n, note))
+        except Gap as g:
+            gaps.append("%s: %s.%s: %s" % (label, CLASS, n, g))
+    if gaps:
+        return texts, gaps, assumptions
+    translate_funcs.uses_ne = getattr(translate_funcs, "uses_ne", False) or uses_ne
     try:
         facts = method_facts(single)
     except Gap as g:
@@ -821,12 +1338,13 @@ def translate_repo(repo):
         htree = ast.parse(fh.read())
     with open(np_, encoding="utf-8") as fh:
         ntree = ast.parse(fh.read())
-    gaps = env_checks(ntree)
     hfun, problems = find_in_helpers(htree)
-    gaps += problems
     nfun = find_in_nml(ntree)
+    translate_funcs.uses_ne = False
     ntext, g1, a1 = translate_funcs("nml.py", nfun)
     htext, g2, a2 = translate_funcs("helper_methods.py", hfun)
+    gaps = env_checks(ntree, uses_ne=translate_funcs.uses_ne)
+    gaps += problems
     gaps += g1 + g2
     chunks = []
     for n in ORDER:
